@@ -69,6 +69,8 @@ func fileSets() map[string][]fileSpec {
 		"license-after-64k":  {{"NOTES", strings.Repeat("some unrelated line of notes that fills the file\n", 1330) + mit + "\n" + strings.Repeat("more unrelated lines behind the license text\n", 1600)}},
 		"latin1":          {{"LICENSE", "Copyright \xa9 2020 Foo GmbH, M\xfcnchen\n\n" + mit + "\nGr\xfc\xdfe\n"}},
 		"unlicensed":      {{"README", "just words, nothing else\nsecond line\n"}},
+		// symbolic links to files (a vendored copy pointing at the top-level license): a file like any other
+		"symlinks": {{"LICENSE", mit}, {"NOTES", "plain\n"}, {"pkg/a/LICENSE", "\x00LINK:../../LICENSE"}, {"pkg/b/COPYING", "\x00LINK:../../LICENSE"}, {"linked-notes", "\x00LINK:NOTES"}},
 		// copyright notices and date lines before, inside and - the last line with any words - after the license
 		"notice-positions": {{"head.txt", "Copyright 2019 First Holder\n" + mit}, {"tail.txt", mit + "\nCopyright 2020 Last Holder\n"}, {"date.txt", mit + "\n\n2020-01-02\n"}, {"tail-blank.txt", mit + "\nCopyright 2021 Somebody\n\n\n"}, {"both.txt", "2001-02-03\n" + bsd + "\nCopyright (c) 2022 Z\n"}},
 		// run with -ignore_paths_re '.*/AUTHORS' (a FILE pattern): only that file is left out, not what
@@ -145,7 +147,7 @@ func c19CLI(c *vrep.Ctx) {
 	}
 	sort.Strings(names)
 	if !c.Thorough() {
-		names = []string{"licensed", "unlicensed", "nested", "crlf", "long-line-first", "header-only", "copyright-only", "no-trailing-nl", "identical-twins", "crowd", "latin1", "big-no-trailing-nl", "license-after-64k", "ignore-authors", "notice-positions"}
+		names = []string{"licensed", "unlicensed", "nested", "crlf", "long-line-first", "header-only", "copyright-only", "no-trailing-nl", "identical-twins", "crowd", "latin1", "big-no-trailing-nl", "license-after-64k", "ignore-authors", "notice-positions", "symlinks"}
 	}
 	taskMenu := []string{"1", "2", "16", "default"}
 	c.R.Rule = fmt.Sprintf("the real identify_license binary built from the current tree, over %d file sets (licensed, unlicensed, nested directories, no trailing newline, CRLF, a 70 000-character line, empty file, header-only, copyright-only, two licenses in one file, many files, 1100 files, a tree run with -ignore_paths_re for one file name) x {-headers} x {plain, -json -include_text} x -tasks %v: stdout lines (as a multiset), JSON Text (= lines StartLine..EndLine of the file) and exit status compared with in-process DefaultClassifier().Match on the file bytes; quick tier samples the flag combinations round-robin, thorough runs all; non-trivial = runs that reported at least one line", len(names), taskMenu)
@@ -186,7 +188,20 @@ func c19CLI(c *vrep.Ctx) {
 		for _, f := range set {
 			p := filepath.Join(root, "tree", f.rel)
 			os.MkdirAll(filepath.Dir(p), 0o755)
-			os.WriteFile(p, []byte(f.body), 0o644)
+			if strings.HasPrefix(f.body, "\x00LINK:") {
+				// a symbolic link; what is expected for it is what the library says about the bytes it leads to
+				target := strings.TrimPrefix(f.body, "\x00LINK:")
+				if err := os.Symlink(target, p); err != nil {
+					panic(err)
+				}
+				for _, g := range set {
+					if filepath.Join(root, "tree", g.rel) == filepath.Join(filepath.Dir(p), target) {
+						f.body = g.body
+					}
+				}
+			} else {
+				os.WriteFile(p, []byte(f.body), 0o644)
+			}
 			if ignoreRe != "" && strings.HasSuffix(p, "/AUTHORS") {
 				continue // left out by the pattern: nothing is expected for it
 			}
